@@ -108,7 +108,8 @@ def gen(tier, rng):
         for st, body in ((400, b"{\"error\":\"invalid_grant\"}"), (400, b"{\"error\":\"authorization_pending\"}"), (401, b"{\"error\":\"invalid_client\",\"error_description\":\"x\"}"),
                          (200, b"{\"access_token\":\"tok\",\"token_type\":\"Bearer\",\"expires_in\":3600}"), (500, b""), (503, b"<html>"), (200, b"not json"), (403, b"{\"error\":\"custom\"}"),
                          (400, b"{\"error\":\"invalid_grant\",\"error_description\":\"Benutzer ung\xfcltig \xff\"}"), (200, b"{\"access_token\":\"t\xfck\",\"token_type\":\"bearer\"}"),
-                         (401, b"{\"error\":\"invalid_client\",\"error_uri\":\"/relative/doc#x\"}")):
+                         (401, b"{\"error\":\"invalid_client\",\"error_uri\":\"/relative/doc#x\"}"), (400, b"{\"error\":\"invalid\\u005fgrant\",\"error_description\":\"a\\/b\"}"),
+                         (400, b"{\"error\":\"https:\\/\\/vendor.example\\/errors\\/quota\"}")):
             for ct in (b"application/json", None, b"text/html"):
                 out.append(("NETFLOW %s %d %s %s" % (a, st, C.topt(ct), C.tb(body)), "flow"))
     return out
